@@ -68,6 +68,11 @@ class Ctx:
         closure value; params: operands for the closure's declared parameters; result: place that receives the returned
         value; cont: block to continue at; pre: statements to run first"""
         raw = self.raw
+        if isinstance(cpath, tuple) and cpath[0] == "fn":
+            # not a closure but a function item: call it
+            entry = self.block(list(pre), dict(self.meta, k="call", callee=cpath[1], args=list(params), dest=result, target=cont, unwind=None,
+                                               fn_exp=False, desugared="closure"))
+            return entry
         craw = self.raws[cpath]
         loff = len(raw["locals"])
         poff = len(raw.setdefault("promoted", []))
@@ -149,6 +154,13 @@ def rewrite_call(raw, raws, bi):
     def clos(i, nparams):
         if i >= len(args):
             return None
+        a = args[i]
+        if isinstance(a, dict) and a.get("k") == "const" and a.get("fn") and nparams >= 1:
+            # a function item handed to the combinator (`.map(i64::from_be_bytes)`): an ordinary call of it
+            path = a.get("fn_resolved") or a["fn"]
+            callee = {"decl": a["fn"], "path": path, "resolved": True, "krate": path.split("::")[0].lstrip("<"), "local": path in raws,
+                      "kind": "Fn", "name": path.split("::")[-1], "unsafe": False, "gargs": a.get("fn_args", ""), "synthetic": True}
+            return (("fn", callee, nparams), None)
         fc = find_closure(raw, args[i])
         if fc is None or fc[0] not in raws:
             return None
@@ -158,6 +170,8 @@ def rewrite_call(raw, raws, bi):
         return fc
 
     def rty(cpath):
+        if isinstance(cpath, tuple):
+            return ""
         return raws[cpath]["locals"][0]["ty"]
 
     def switch_enum(subject_local, variants, arms, subj_ty=""):
@@ -211,7 +225,7 @@ def rewrite_call(raw, raws, bi):
             if fc is None:
                 return False
             R = cx.local(rty(fc[0]))
-            P = cx.local(raws[fc[0]]["locals"][2]["ty"])
+            P = cx.local(raws[fc[0]]["locals"][2]["ty"] if not isinstance(fc[0], tuple) else "")
             if name == "map":
                 K = cx.block([cx.assign(D, agg(adt, good, [mv(R)]))], cx.goto(target))
             else:
@@ -355,7 +369,7 @@ def rewrite_call(raw, raws, bi):
         ity = raw["locals"][I]["ty"]
         it = cx.local(ity, raw["locals"][I].get("ty_adt"))
         ref = cx.local("&mut " + ity)
-        n = cx.local("std::option::Option<" + (raws[fc[0]]["locals"][3 if acc else 2]["ty"]) + ">", "Option")
+        n = cx.local("std::option::Option<" + (raws[fc[0]]["locals"][3 if acc else 2]["ty"] if not isinstance(fc[0], tuple) else "") + ">", "Option")
         P = cx.local("")
         A = cx.local("") if acc else None
         pre_x = [cx.assign({"local": it, "proj": [], "ty": ity}, {"k": "use", "op": args[0]})]
